@@ -133,8 +133,8 @@ def havoc_value(ex, name, v, k, tag):
     return out
   if isinstance(v, tuple):
     return tuple(havoc_value(ex, f"{name}.{i}", c, k, tag) for i, c in enumerate(v))
-  if v is None or isinstance(v, ArrRef):
-    return v
+  if v is None or isinstance(v, ArrRef) or not (is_conc(v) or isinstance(v, z3.ExprRef)):
+    return v  # arrays, row views, function references: not data that a loop can change symbolically
   kd = kind_of(v)
   srt = {"int": z3.IntSort(), "float": z3.RealSort(), "bool": z3.BoolSort()}[kd]
   if k is None:
@@ -292,6 +292,9 @@ def summarise_stores(ex, body_log, arrs_before, outer_bound, fr_key, lineno, par
     if not writes:
       continue
     ref = writes[0].arr
+    if any(w.op == "tile" for w in writes):
+      ex.havoc_array(ref, "tile store (content not modelled)")
+      continue
     elim_all = []
     for a in writes:
       for b in a.bound:
@@ -452,7 +455,8 @@ def exec_for(ex, s, fr):
           break
     else:
       if not is_conc(step):
-        raise Unsupported("symbolic range step")
+        # grid-stride style loop: a symbolic stride is assumed positive (python/warp reject 0)
+        ex.assume(lift(step) >= 1)
       _symbolic_loop(ex, s, fr, var, start, stop, step)
   finally:
     ex.st.pc.pop()
@@ -496,20 +500,23 @@ def _symbolic_loop(ex, s, fr, var, start, stop, step):
   tag = f"L{ordn}!{next(ex.fresh_ctr)}"
   env0 = fr.env
   if is_for:
-    ivar = lift(start) + k * step if not (is_conc(start) and start == 0 and step == 1) else k
-    if step > 0:
+    ivar = lift(start) + k * step if not (is_conc(start) and start == 0 and is_conc(step) and step == 1) else k
+    if not is_conc(step):
+      rng = z3.And(k >= 0, lift(ivar) < lift(stop))
+      trip = None
+    elif step > 0:
       rng = z3.And(k >= 0, lift(ivar) < lift(stop))
       trip = z3.If(lift(stop) > lift(start), (lift(stop) - lift(start) + (step - 1)) / step, z3.IntVal(0))
     else:
       rng = z3.And(k >= 0, lift(ivar) > lift(stop))
       trip = z3.If(lift(stop) < lift(start), (lift(start) - lift(stop) + (-step - 1)) / (-step), z3.IntVal(0))
-    trip = z3.simplify(trip)
+    trip = z3.simplify(trip) if trip is not None else None
   else:
     ivar = None
     rng = k >= 0
     trip = None
   affine = {}
-  if is_for and not escapes and not has_cont:
+  if is_for and not escapes and not has_cont and trip is not None:
     for n in carried:
       v0 = env0[n]
       if isinstance(v0, (Vec, StructVal, tuple)) or v0 is None:
